@@ -43,6 +43,15 @@ type InstHint struct {
 	Src    string
 }
 
+// SharedSpec: a heap location other goroutines may write while this function
+// runs: its value is unknown again at every loop head, subject to the rely
+// condition (relating old(...) = value before to the new value).
+type SharedSpec struct {
+	Loc  *SExpr
+	Rely *SExpr
+	Src  string
+}
+
 type LoopSpec struct {
 	Invariants []Clause
 	Decreases  *Clause
@@ -80,6 +89,7 @@ type FuncContract struct {
 	attached  bool
 	InlineAll []string
 	Reveals   []string
+	Shared    []SharedSpec
 }
 
 type PureFunc struct {
@@ -138,7 +148,7 @@ var clauseKeywords = map[string]bool{
 	"loop": true, "inline": true, "mode": true, "recovers": true, "diverges": true, "trusted": true,
 	"nosafe": true, "use": true, "monitor": true, "ghost": true, "case": true, "secret": true,
 	"sink": true, "flag": true, "const": true, "protects": true, "invariant": true, "abstract": true,
-	"inlinecalls": true, "inst": true, "reveal": true, "rows": true, "oracle": true, "row": true, "writeset": true,
+	"inlinecalls": true, "inst": true, "reveal": true, "shared": true, "rows": true, "oracle": true, "row": true, "writeset": true,
 }
 
 func firstWord(s string) string {
@@ -462,6 +472,23 @@ func ParseContractFile(path string) (*ContractFile, error) {
 			curF.Asserts = append(curF.Asserts, AtCall{Ordinal: k, Callee: f[4], Kind: f[5], C: c})
 		case w == "inline":
 			curF.Inline = true
+		case w == "shared":
+			// shared LOC [rely EXPR]
+			loc, rely := rest, ""
+			if i := strings.Index(rest, " rely "); i >= 0 {
+				loc, rely = strings.TrimSpace(rest[:i]), strings.TrimSpace(rest[i+6:])
+			}
+			le, err := ParseExpr(loc)
+			if err != nil {
+				return nil, fail(l, "%v", err)
+			}
+			sh := SharedSpec{Loc: le, Src: rest}
+			if rely != "" {
+				if sh.Rely, err = ParseExpr(rely); err != nil {
+					return nil, fail(l, "%v", err)
+				}
+			}
+			curF.Shared = append(curF.Shared, sh)
 		case w == "reveal":
 			curF.Reveals = append(curF.Reveals, strings.Fields(rest)...)
 		case w == "inlinecalls":
